@@ -422,6 +422,10 @@ fn parse_ops(ints: &[i64]) -> Vec<(i64, Vec<i64>)> {
 
 /// the body of a lazy closure queued by op 63: run the nested operations on the world it is given
 fn run_prog(world: &mut World, sp: &StPtr, prog: &[(i64, Vec<i64>)]) {
+    // C20, run E: a closure that takes its time (nothing observable may depend on how long deferred work takes)
+    if crate::slow_closures() {
+        std::thread::sleep(std::time::Duration::from_millis(9));
+    }
     // SAFETY: see StPtr
     let xs: &mut St = unsafe { &mut *sp.0 };
     for (code, p) in prog {
